@@ -1,5 +1,6 @@
 (* C02 — segmentation is lossless, ordered and correctly bracketed. Statements only. *)
 From DV Require Import Model.Reader Proofs.SegmentP.
+From DV Require Import Model.ApiDispatch Proofs.FileP.
 
 (* Reading the file back with the strict reader (headers and flagged pad bytes dropped, bracket discipline enforced)
    yields exactly the records given to the writer, in order, byte for byte, with flag and type preserved.
@@ -22,6 +23,15 @@ Theorem C02_writer_bracketed : forall c recs bs,
   exists vrs, parse_file c bs = Some vrs /\ Bracketed (concat vrs) (filter nonempty_body recs).
 Proof. exact writer_bracketed. Qed.
 
+(* END TO END over the modelled API: after any sequence of API calls and earlier writes, the file DLISFile.write returns
+   parses into visible records whose segment sequence is bracketed, and reassembles *)
+Theorem C02_api_bracketed : forall l ps hc w st' bs,
+  let st := snd (run_actions ps b_init l) in
+  write hc st w = (st', OK bs) ->
+  let cfg := {| sul_seq := w_seq w; sul_vrl := w_vrl w; sul_id := w_ident w |} in
+  exists vrs recs, parse_file cfg bs = Some vrs /\ Bracketed (concat vrs) recs /\ read_records cfg bs = Some recs.
+Proof. exact api_output_bracketed. Qed.
+
 (* non-vacuity: a body of 30 bytes at capacity 12 is cut in three segments (12, 6 padded, 12) and read back *)
 Example C02_ex :
   let c := {| sul_seq := 1; sul_vrl := 20; sul_id := [] |} in
@@ -33,3 +43,4 @@ Proof. eexists. split; [vm_compute; reflexivity|]. split; vm_compute; reflexivit
 Print Assumptions C02_roundtrip.
 Print Assumptions C02_bracket.
 Print Assumptions C02_writer_bracketed.
+Print Assumptions C02_api_bracketed.
